@@ -40,14 +40,15 @@ theorem out_add [Add α] (K : Kern α) (hK : KAdd K) (c : StageCfg) (s0 : StageS
     (unitSem K c s0).out u (ladd w1 w2) = ladd ((unitSem K c s0).out u w1) ((unitSem K c s0).out u w2) := by
   unfold unitSem
   cases hk : c.kind <;> simp only
-  · simp [ladd, hK c 0 0 0 w1 w2 h]
-  · simp [ladd, hK c _ 0 0 w1 w2 h]
+  · rw [hK c 0 0 0 w1 w2 h]; rfl
+  · rw [hK c _ 0 0 w1 w2 h]; rfl
   · generalize (List.range (dftProduced c (dctl c s0 u).2.2).1) = r
     induction r with
     | nil => rfl
     | cons j t ih =>
-      simp only [List.map_cons, ladd, List.zipWith_cons_cons] at ih ⊢
-      rw [← ih, hK c _ _ j w1 w2 h]
+      simp only [List.map_cons]
+      rw [ih, hK c _ _ j w1 w2 h]
+      rfl
 
 theorem G_add_lists [Add α] (K : Kern α) (hK : KAdd K) (c : StageCfg) (s0 : StageSt) (h1 h2 : List α) (hl : h1.length = h2.length) :
     ∀ m, (unitSem K c s0).G m (ladd h1 h2) = ladd ((unitSem K c s0).G m h1) ((unitSem K c s0).G m h2) := by
@@ -125,5 +126,65 @@ theorem engine_superposition [Add α] (K : Kern α) (hK : KAdd K) (z : α) (hz :
   have q1 : t1 = s1 := (CInv_comparable K z plan x x t1 s1 c1 h1.toCInv (Comparable.refl x)).eq_of_length (by omega)
   have q2 : t2 = s2 := (CInv_comparable K z plan y y t2 s2 c2 h2.toCInv (Comparable.refl y)).eq_of_length (by omega)
   rw [hs, q1, q2]
+
+/-! ## homogeneity -/
+
+/-- every sample multiplied by `a` -/
+def lsmul [Mul α] (a : α) (l : List α) : List α := l.map (a * ·)
+
+/-- the kernels commute with scaling of the window -/
+def KSmul [Mul α] (K : Kern α) : Prop :=
+  ∀ (c : StageCfg) (p1 p2 p3 : Nat) (a : α) (w : List α), K.eval c p1 p2 p3 (lsmul a w) = a * K.eval c p1 p2 p3 w
+
+theorem out_smul [Mul α] (K : Kern α) (hK : KSmul K) (c : StageCfg) (s0 : StageSt) (u : Nat) (a : α) (w : List α) :
+    (unitSem K c s0).out u (lsmul a w) = lsmul a ((unitSem K c s0).out u w) := by
+  unfold unitSem
+  cases hk : c.kind <;> simp only
+  · rw [hK]; rfl
+  · rw [hK]; rfl
+  · simp only [lsmul, List.map_map]
+    apply List.map_congr_left
+    intro j _
+    exact hK c _ _ j a w
+
+theorem G_smul_lists [Mul α] (K : Kern α) (hK : KSmul K) (c : StageCfg) (s0 : StageSt) (a : α) (h : List α) :
+    ∀ m, (unitSem K c s0).G m (lsmul a h) = lsmul a ((unitSem K c s0).G m h) := by
+  intro m
+  induction m with
+  | zero => rfl
+  | succ m ih =>
+    simp only [UnitSem.G, ih]
+    have hw : (unitSem K c s0).window m (lsmul a h) = lsmul a ((unitSem K c s0).window m h) := by
+      unfold UnitSem.window lsmul; rw [← List.map_drop, ← List.map_take]
+    rw [hw, out_smul K hK]
+    simp [lsmul]
+
+/-- **Homogeneity for the engine model**: a canonical stream of `a·x` is `a` times a canonical stream of `x` with the
+    same units (`a·z = z` for the zero sample the FIFOs are preloaded with). -/
+theorem CInv_smul [Mul α] (K : Kern α) (hK : KSmul K) (z : α) (a : α) (hz : a * z = z) : ∀ (plan : Plan) (x s : List α),
+    CInv K z plan (lsmul a x) s → ∃ t, CInv K z plan x t ∧ s = lsmul a t := by
+  intro plan
+  induction plan with
+  | nil => intro x s h; cases h; exact ⟨x, CInv.nil x, rfl⟩
+  | cons p ps ih =>
+    intro x s h
+    cases h with
+    | @cons _ _ s' c s0 m hb hst =>
+      obtain ⟨t, ht, hs⟩ := ih x s' hb
+      subst hs
+      have hpre : List.replicate s0.occ z ++ lsmul a t = lsmul a (List.replicate s0.occ z ++ t) := by
+        simp [lsmul, hz]
+      have hlen : (List.replicate s0.occ z ++ lsmul a t).length = (List.replicate s0.occ z ++ t).length := by simp [lsmul]
+      have st : (unitSem K c s0).Stable m (List.replicate s0.occ z ++ t) := by
+        intro u hu; have := hst u hu; rw [hlen] at this; exact this
+      exact ⟨_, CInv.cons c s0 m ht st, by rw [hpre, G_smul_lists K hK]⟩
+
+theorem engine_homogeneity [Mul α] (K : Kern α) (hK : KSmul K) (z : α) (a : α) (hz : a * z = z) (plan : Plan)
+    (l1 l2 : List (DStage α)) (x s1 s2 : List α) (h1 : PInv K z plan l1 x s1) (h2 : PInv K z plan l2 (lsmul a x) s2)
+    (e : s1.length = s2.length) : s2 = lsmul a s1 := by
+  obtain ⟨t, ct, hs⟩ := CInv_smul K hK z a hz plan x s2 h2.toCInv
+  have hl : t.length = s1.length := by rw [e, hs]; simp [lsmul]
+  have q : t = s1 := (CInv_comparable K z plan x x t s1 ct h1.toCInv (Comparable.refl x)).eq_of_length hl
+  rw [hs, q]
 
 end Soxr.Cr
